@@ -52,7 +52,7 @@ func c15(tier string) []*explore.Scenario {
 		pick(c02(tier), "cap=64/Bidi/concurrent/echo/n=200", "cap=0/SStream/sendall/burst/n=1/m=200"),
 		pick(c10(tier), `set="UUUUUUUURRRRRRRR"/stop@16`, `set="UUUUUUUUUo"`),
 		pick(c18(tier), "delivery/keys=8/per=2"),
-		pick(c08(tier), "C08/concurrent/k=3", "C08/concurrent/k=8", "C08/queued/busy=8/wait=400ms"),
+		pick(c08(tier), "C08/concurrent/k=3", "C08/concurrent/k=8", "C08/queued/busy=8/wait=400ms", "C08/concurrent-raw/"),
 	)
 	all := donors("C15", lists...)
 	var out []*explore.Scenario
